@@ -271,6 +271,21 @@ pub fn child(ctx: &Ctx) -> i32 {
                 }
             };
             rep.count(&format!("stream{}.accepted", kind));
+            if kind == 0 || kind == 1 {
+                if let Some(c) = v.get("detection").and_then(|d| d.get("condition")).and_then(|c| c.as_str()) {
+                    let ok = match crate::cgram::parse_lenient(c) {
+                        Ok(pc) => {
+                            let mut ids = vec![];
+                            pc.idents(&mut ids);
+                            ids.iter().all(|i| names.contains(i))
+                        }
+                        Err(e) => !e.contains("operand where a predicate is required") && !e.contains("key modifier"),
+                    };
+                    if !ok {
+                        rep.violation("accepted-invalid", "c03-accepted-invalid", &format!("the loader accepts the condition {:?} although the fixed grammar rejects it or an identifier does not exist", c), json!({"rule": text, "expected": "load-err"}));
+                    }
+                }
+            }
             let mut fields = vec![];
             if let Some(det) = v.get("detection") {
                 rule_fields(det, &mut fields);
@@ -324,6 +339,60 @@ pub fn child(ctx: &Ctx) -> i32 {
             Ok(Load::Err(_)) => rep.count("deep_nesting_rule_rejected"),
             Err(_) => rep.count("load_panicked(C04)"),
         }
+    }
+    // the load-time clause of the property: a condition whose and/or/not operands are not all
+    // predicates, or that mentions an identifier that does not exist, must be REJECTED (not
+    // merely evaluated without a panic). Complete over all sequences of <= 4 condition symbols.
+    {
+        let syms = crate::c04::COND_SYMS;
+        let n = syms.len();
+        let stripes = 16usize;
+        let acc = par_shards(ctx, stripes, |stripe| {
+            let mut rep = Report::new();
+            for len in 1..=4usize {
+                let total = n.pow(len as u32);
+                let mut idx = stripe;
+                while idx < total {
+                    let mut cond = String::new();
+                    let mut c = idx;
+                    for _ in 0..len {
+                        cond.push_str(syms[c % n]);
+                        c /= n;
+                    }
+                    idx += stripes;
+                    let text = format!("detection:\n  A:\n    f: v\n  B:\n    g: v\n  condition: {}\ntrue_positives: []\ntrue_negatives: []\n", serde_yaml::to_string(&cond).unwrap_or_default().trim());
+                    let reference = crate::cgram::parse_lenient(&cond);
+                    // only what the property's clause names: an undefined identifier, or an
+                    // and/or/not operand that is not a predicate
+                    let valid = match &reference {
+                        Ok(c) => {
+                            let mut ids = vec![];
+                            c.idents(&mut ids);
+                            ids.iter().all(|i| i == "A" || i == "B")
+                        }
+                        Err(e) => !e.contains("operand where a predicate is required") && !e.contains("key modifier"),
+                    };
+                    rep.evaluations += 1;
+                    if let Ok(Load::Ok(_)) = eng::load(&text) {
+                        rep.count("load_clause.accepted");
+                        if !valid {
+                            rep.violation(
+                                "accepted-invalid",
+                                "c03-accepted-invalid",
+                                &format!("the loader accepts the condition {:?} although {}", cond, match &reference { Err(e) => format!("the fixed grammar rejects it ({})", e), Ok(_) => "it mentions an identifier that does not exist".to_string() }),
+                                json!({"rule": text, "expected": "load-err"}),
+                            );
+                        } else {
+                            rep.nontrivial_key(&format!("accepted|{}", cond));
+                        }
+                    } else {
+                        rep.count("load_clause.rejected");
+                    }
+                }
+            }
+            rep
+        });
+        rep.merge(acc);
     }
     // thorough only: huge rules (a list of 10^5 members; an or-group over more distinct fields
     // than the matrix's one-character keys can number before the surrogate gap)
